@@ -1,6 +1,14 @@
 def classify(sig, what):
     if sig.startswith('exit0'): return None
     kind, site = sig.split(' @ ')
+    if kind.startswith('response') and site.endswith('/default'):
+        return 'R8: only status-code responses are compared; the default response is never analysed (' + kind + ' at ' + site + ')'
+    if kind.startswith('response') and site.startswith('allOf-ref+inline'):
+        return 'R7: diff never compares the members of an allOf (no direct properties on either side); ' + kind + ' in a $ref member of a response allOf is only seen under "Spec Definitions", where request rules apply (enum growth = NonBreaking)'
+    if kind.startswith('response') and site.startswith('map-of-ref'):
+        return 'R9: diff never descends into additionalProperties schemas; ' + kind + ' in the value definition of a response map is only seen under "Spec Definitions" with request rules'
+    if kind.startswith('response') and site.startswith('ref>prop-ref'):
+        return 'R10: a definition reached from a response through $ref -> property -> $ref is compared once, under "Spec Definitions", with request-side rules: the response context is lost, so ' + kind + ' (breaking for clients) is classified NonBreaking'
     if site == 'body.allOf': return 'R7: diff never compares schemas/required sets inside allOf members of a body schema (CompareProperties returns early when neither side has direct properties); ' + kind + ' inside an allOf member is unreported'
     if site == 'body.map': return 'R9: diff never descends into additionalProperties schemas; ' + kind + ' on map values is unreported'
     if site in ('items', 'nested-items'): return 'R5: diff never compares the items of array-typed simple parameters (only collectionFormat/default/example are looked at); ' + kind + ' on items is unreported'
